@@ -244,9 +244,24 @@ func cutsOf(ops []vfs.Op) []cutInfo {
 func posOf(ci cutInfo, tornName, tearKind string) string {
 	if tornName != "" {
 		// the operation in flight names the phase by itself
-		return "torn=" + tornName + ":" + tearKind
+		return "torn=" + tornName + ":" + foldTear(tearKind)
 	}
 	return "fg-after=" + ci.FgAfter
+}
+
+// foldTear drops the granularity (256-byte multiple / 4 KiB page boundary) from a tear kind: what a
+// fingerprint keeps is where the tear lies relative to the records (the counters keep both).
+func foldTear(kind string) string {
+	for _, unit := range []string{"4096", "256"} {
+		if strings.HasPrefix(kind, unit) {
+			rest := strings.TrimPrefix(strings.TrimPrefix(kind, unit), "@")
+			if rest == "" {
+				return "inside"
+			}
+			return rest
+		}
+	}
+	return kind
 }
 
 // posOfRecovery names a crash point inside a recovery (depth 2): the last completed operation of
@@ -259,7 +274,7 @@ func posOfRecovery(ci cutInfo, tornName, tearKind string) string {
 		return n
 	}
 	if tornName != "" {
-		return "torn=" + strip(tornName) + ":" + tearKind
+		return "torn=" + strip(tornName) + ":" + foldTear(tearKind)
 	}
 	return "after=" + strip(ci.After)
 }
